@@ -26,7 +26,8 @@ from ..refs import sdof_ref as ref
 CASE_TIMEOUT = 600
 DTS = ('0.01', '0.5')
 # period lists in units of dt (strings -> exact rationals)
-PLISTS = (('0', '2', '5.9', '6', '20'), ('2', '5.9', '6', '20'), ('0', '100'), ('3',), ('5.999999', '6', '6.000001'), ('10', '40', '100'))
+PLISTS = (('0', '2', '5.9', '6', '20'), ('2', '5.9', '6', '20'), ('0', '100'), ('3',), ('5.999999', '6', '6.000001'), ('10', '40', '100'),
+          ('20', '2', '100', '5.9', '6'), ('0', '20', '3', '50'))      # the last two: in no particular order, at array level too
 PLIST_DESC = ('20', '6', '2')     # object path only: T_min is not the first entry
 XIS = (0.0, 0.05, 0.7)
 MDR = (1, 2, 4, 8)
